@@ -2,7 +2,7 @@ SPECIFICATION SpecMC
 CONSTANTS
   Libs = {"A", "B", "C"}
   NT = 2
-  Statuses = {"absent", "fwd", "def", "defg"}
+  Statuses = {"absent", "fwd", "defg"}
   Statuses2 = {"defg"}
   Modes = {"db", "mod"}
   LookupKinds = {"ttn", "tn", "esn"}
